@@ -200,6 +200,22 @@ def run(cx):
             for c in bb_.calls_to(f"anemo::config::EndpointConfigBuilder::{fn}"):
                 t = bo.of_operand(c.args[3])
                 ob.require(mentions_field(t, "transport_config") and mentions_param(t, "self"), f"build/{fn}-transport", f"{fn} transport = {show(t)[:80]}", bb_.path)
+        # every quinn ClientConfig anemo constructs (plain dial and pinned dial) gets the endpoint's transport config
+        news = prog.callers_of("quinn_proto::config::ClientConfig::new", crates=["anemo"])
+        ob.floor(news, 2, "quinn ClientConfig::new sites (plain + pinned dial)")
+        for c in news:
+            bdy = c.body
+            bo_ = Origins(bdy)
+            sets = [x for x in bdy.calls_to("quinn_proto::config::ClientConfig::transport_config")
+                    if [v[3] for v in walk(bo_.of_operand(x.args[0])) if v[0] == "call" and name_matches(v[1], "ClientConfig::new")] == [c.bb]]
+            ok = len(sets) == 1 and all(bdy.dominates(sets[0].bb, r) for r in bdy.return_blocks() if c.bb in bdy.dominators().get(r, set()))
+            if ok:
+                tc = bo_.of_operand(sets[0].args[1])
+                ok = (mentions_field(tc, "transport_config") and mentions_param(tc, "self")) or is_param(tc, "transport_config")
+            ob.require(ok, f"client-config/transport-installed/{owner_path(prog, bdy)}",
+                       f"{bdy.path}: the quinn ClientConfig built here does not get the endpoint's transport config (idle timeout / keep-alive) on every path", bdy.path, bdy.loc(c.bb))
+        svs = prog.callers_of(("quinn_proto::config::ServerConfig::with_crypto", "quinn_proto::config::ServerConfig::new"), crates=["anemo"])
+        ob.floor(svs, 1, "quinn ServerConfig construction sites", exact=True)
         sc = cx.body("anemo::config::EndpointConfigBuilder::server_config")
         w_ = [d for d in field_accesses(prog, "quinn_proto::config::ServerConfig", "transport", crates=["anemo"]) if d[2] == "write" and d[0].path == sc.path and not d[0].is_cleanup(d[1])]
         ob.require(len(w_) == 1 and is_param(Origins(sc).of_rvalue(w_[0][3]["rv"]), "transport_config"), "server/transport-set", "server_config does not install the transport config", sc.path)
